@@ -359,6 +359,25 @@ theorem C18_history_any_length (C : ℕ) (devs : List (Dev K)) :
     rw [ih X _ h']
     exact C18_history C devs Y X s h
 
+/-! ### known finding: etched devices and dispersive backgrounds
+
+Not shown (and false for the code as found): "an etched device with x = 0 leaves its cells unmodified" for the
+dispersive coefficient arrays.  The coefficient write does not look at the existing coefficients, so the etched
+device replaces them by its own material's row whatever x is.  Machine-checked witness on the model (one cell,
+one coefficient channel, existing coefficient 1, etch material non-dispersive = row [0], x = 0): -/
+
+def etchWitnessDev : Dev ℚ :=
+  { lo := (0, 0, 0), hi := (1, 1, 1), v := (1, 1, 1), mode := Mode.etch, chain := Chain.ident,
+    perm := [[1]], coef := [[0]] }
+
+example :
+    let s : State ℚ := ⟨fun _ _ _ _ => 1 / 4, some (fun _ _ _ _ => 1 / 4), fun _ _ _ _ => 1⟩
+    let s' := applyParams 1 [etchWitnessDev] (fun _ _ _ _ => (0, 0)) s
+    s'.inv 0 0 0 0 = s.inv 0 0 0 0 ∧ s'.coef 0 0 0 0 = 0 ∧ s.coef 0 0 0 0 = 1 := by
+  refine ⟨?_, ?_, rfl⟩
+  · simp [applyParams, applyLoop, applyDevice, resetInv, inSlice, etchWitnessDev, cellInv, invProp, entry, row, designVal]
+  · simp [applyParams, applyLoop, applyDevice, resetInv, inSlice, etchWitnessDev, cellCoef, entry, row, designVal]
+
 /-! ### expand_matrix -/
 
 /-- `jnp.repeat(l, n)[i] = l[i // n]` -/
